@@ -180,6 +180,10 @@ class Driver:
         if resp.get("id") != self.next_id:
             self.stop()
             return {"class": "harness_error", "msg": "response id mismatch"}
+        if resp.get("class") == "stall":
+            # the driver answered and exited (its worker thread cannot be cancelled)
+            self.stop()
+            self.restarts += 1
         return resp
 
 
